@@ -321,3 +321,43 @@ Proof.
   - apply parse_prefix_list_enc. exact Hn.
   - exact A3.
 Qed.
+
+(** ---- kept as the code has it: announced prefixes without any attribute are not sent ---- *)
+(** the stated ranges without the side condition "announced prefixes come with attributes" *)
+Definition in_ranges (asn4 : bool) (m : upd) : Prop :=
+  Forall wf_pfx (u_withdraw m) /\ Forall wf_pfx (u_nlri m) /\
+  Forall (wf_attr asn4) (u_attrs m) /\ NoDup (map fst (u_attrs m)) /\
+  upd_size asn4 m <= c_MAX_LEN.
+
+Definition nlri_only : upd := mkUpd [] [] [(167772160, 8)].
+Definition nlri_and_withdraw_only : upd := mkUpd [(184549376, 8)] [] [(167772160, 8)].
+
+Lemma in_ranges_prefix_only w n :
+  Forall wf_pfx w -> Forall wf_pfx n -> 23 + pfx_size w + pfx_size n <= c_MAX_LEN ->
+  in_ranges false (mkUpd w [] n).
+Proof.
+  intros Hw Hn Hs. unfold in_ranges, upd_size. cbn [u_withdraw u_attrs u_nlri attrs_size fold_right map].
+  repeat split; try assumption; try constructor. lia.
+Qed.
+
+Lemma nlri_without_attributes_refuted :
+  (in_ranges false nlri_only /\ u_nlri nlri_only <> [] /\ construct false nlri_only = Ok None) /\
+  (in_ranges false nlri_and_withdraw_only /\ u_nlri nlri_and_withdraw_only <> [] /\
+   exists body, construct false nlri_and_withdraw_only =
+                  Ok (Some (marker16 ++ be 2 (len body + 19) ++ [c_MSG_UPDATE] ++ body)) /\
+                parse false body = Ok (mkUpd [(184549376, 8)] [] [])).
+Proof.
+  assert (P1 : wf_pfx (167772160, 8)) by (repeat split; vm_compute; congruence).
+  assert (P2 : wf_pfx (184549376, 8)) by (repeat split; vm_compute; congruence).
+  split; [split; [|split]|split; [|split]].
+  - apply in_ranges_prefix_only; [apply Forall_nil | apply Forall_cons; [exact P1 | apply Forall_nil] | vm_compute; congruence].
+  - discriminate.
+  - vm_compute. reflexivity.
+  - apply in_ranges_prefix_only; [apply Forall_cons; [exact P2 | apply Forall_nil] | apply Forall_cons; [exact P1 | apply Forall_nil] | vm_compute; congruence].
+  - discriminate.
+  - exists [0; 2; 8; 11; 0; 0]. split; vm_compute; reflexivity.
+Qed.
+
+Lemma wf_iff_in_ranges asn4 m :
+  wf asn4 m <-> in_ranges asn4 m /\ (u_nlri m = [] \/ u_attrs m <> []) /\ (u_attrs m <> [] \/ u_withdraw m <> []).
+Proof. unfold wf, in_ranges. tauto. Qed.
